@@ -47,6 +47,15 @@ const WIDTH: usize = 2;
 
 const MASK: u64 = 0x3;
 
+// With the verification hooks enabled, shadow the std feature-detection macro so that the
+// scalar path of `from_acgt_bytes` can be exercised on machines that do have AVX2.
+#[cfg(all(feature = "verif_hooks", any(target_arch = "x86", target_arch = "x86_64")))]
+macro_rules! is_x86_feature_detected {
+    ($f:tt) => {
+        (std::is_x86_feature_detected!($f) && !crate::verif_hooks::force_scalar())
+    };
+}
+
 /// A container for sequence of DNA bases.
 /// ```
 /// use debruijn::dna_string::DnaString;
